@@ -709,12 +709,12 @@ static bool run_and_check(Ctx &c, const Program &P, const std::vector<Step> &sch
         g_sh_image = shared_image();
         ok = false;
     }
+    // a library static whose bytes changed is not by itself a violation (it could be properly synchronised or written by one
+    // thread only); it is counted for the evidence, the verdict comes from the conflict check above
     for (auto &s : g_statics)
         if (memcmp((const void *)s.addr, s.image.data(), s.size) != 0) {
-            c.fail(strf("c20:library-static-modified:%s", demangled(s.name).c_str()),
-                   where() + ": static storage defined by the library changed during the execution (hidden shared state)");
+            VF_COUNT("executions-in-which-a-library-static-changed");
             s.image.assign((const char *)s.addr, s.size);
-            ok = false;
         }
     return ok;
 }
